@@ -301,9 +301,11 @@ def gen_program(rng):
             groups.append(cur)
     else:
         groups = [alts]
+    # how each branch body is written: `=> expr,` / `=> { expr }` (no comma) / `=> { expr },`; same for the default
+    bodyforms = [rng.randint(0, 2) for _ in range(len(groups) + 1)]
     related = any(a != b and (a["text"] in b["text"]) for a in alts for b in alts if a is not b)
     multi_dev = any(len(d) >= 2 for d in devices_all)
-    return {"form": form, "groups": groups, "related": related, "multi_device": multi_dev,
+    return {"form": form, "groups": groups, "bodyforms": bodyforms, "related": related, "multi_device": multi_dev,
             "devices": sorted({d for ds in devices_all for d in ds})}
 
 
@@ -319,9 +321,13 @@ def render_one(i, prog):
             alts_src.append("(%s, %d)" % (a["tok"], bi if form < 4 else 0))
     alts_decl = "const ALTS_%d: &[(&str, u32)] = &[%s];" % (i, ", ".join(alts_src))
     if form < 4:
-        branches = "".join("%s => %d,\n        " % (" | ".join(a["tok"] for a in g), bi) for bi, g in enumerate(prog["groups"]))
-        k = ("fn k_%d<'a>(mut p: Parser<'a>) -> (u32, Parser<'a>) {\n    let r = parser_method!{p, %s;\n        %s_ => 99\n    };\n    (r, p)\n}"
-             % (i, name, branches))
+        bf = prog.get("bodyforms") or [0] * (len(prog["groups"]) + 1)
+
+        def body(v, f):
+            return ["%d," % v, "{ %d }" % v, "{ %d }," % v][f]
+        branches = "".join("%s => %s\n        " % (" | ".join(a["tok"] for a in g), body(bi, bf[bi])) for bi, g in enumerate(prog["groups"]))
+        k = ("fn k_%d<'a>(mut p: Parser<'a>) -> (u32, Parser<'a>) {\n    let r = parser_method!{p, %s;\n        %s_ => %s\n    };\n    (r, p)\n}"
+             % (i, name, branches, ["99", "{ 99 }", "99,"][bf[-1]]))
     else:
         pats = " | ".join(a["tok"] for a in prog["groups"][0])
         k = "fn k_%d<'a>(mut p: Parser<'a>) -> (u32, Parser<'a>) {\n    parser_method!{p, %s; %s};\n    (0, p)\n}" % (i, name, pats)
